@@ -322,6 +322,7 @@ ROUND3 = {
     "C03": " Round 3: skip_posterior_variances is used for all predictions of a fifth of the histories (its code path keeps its own state).",
     "C04": " Round 3: input-dependent prior means, KISS-GP fantasies of fantasies, and a family-tree machine (GetFantasy(of) / Predict(k) in any interleaving, DataFixed) whose maximal histories are replayed: every model of the tree, whenever evaluated, equals a fresh model on its data.",
     "C05": " Round 3: part dims - every argument that names a dimension (dim of sum_interaction_terms, last_dim_is_batch, the structure kernels) at every valid position with pairwise distinct axis sizes (DimsOK), against the explicit sum over index subsets.",
+    "C06": " Round 3: the data of the relation replay is a lattice of geometries (rows as points with identity and class: origin, unit, lattice, generic; coincident rows, rows shared by x1 and x2, x2 ending with the rows of x1: GeoCover) realised per kernel by the special points of its domain.",
     "C08": " Round 3: every objective class of gpytorch.mlls that accepts batched models is in the replica lattice with batch ranks 1 and 2, element b compared in value with the non-batched replica.",
     "C09": " Round 3: part access (every structured kernel under every access form - dense, diag=True, lazy diagonal, variance - x train/eval x the settings that change its meaning: AccessOK) and part gridpred (one prediction of a data-driven-grid KISS-GP as strategy creation, test/test block, test/train block, reference, with the test extent in every position relative to the training extent: GpOK).",
     "C11": " Round 3: the index alphabet contains every pairing of index kinds for the two event dimensions (int incl. negative x tensor, ...: ASSUME PairingsCovered) behind every batch item, and batch index tensors.",
